@@ -146,7 +146,7 @@ func TestVerifC16_ProcLive(t *testing.T) {
 		n := rapid.IntRange(2, 10).Draw(t, "requests")
 		hostile := 0
 		for i := 0; i < n; i++ {
-			kind := rapid.SampledFrom([]string{"garbage", "no-key-post", "wrong-key-get", "bad-length", "huge", "slow-valid", "valid", "valid", "truncated", "get"}).Draw(t, "kind")
+			kind := rapid.SampledFrom([]string{"garbage", "no-key-post", "wrong-key-get", "bad-length", "huge", "slow-valid", "valid", "valid", "truncated", "get", "get-params", "get-params"}).Draw(t, "kind")
 			hdr := ""
 			if key != "" {
 				hdr = "x-api-key: " + key + "\r\n"
@@ -180,6 +180,11 @@ func TestVerifC16_ProcLive(t *testing.T) {
 				expectEffect = true
 			case "get":
 				payload = []byte("GET / HTTP/1.1\r\n" + hdr + "\r\n")
+			case "get-params":
+				// paging parameters at and beyond the limits of the integer type
+				vals := []string{"0", "1", "3", "-1", "9223372036854775807", "9223372036854775806", "4611686018427387904", "99999999999999999999", "abc", ""}
+				payload = []byte(fmt.Sprintf("GET /?limit=%s&offset=%s HTTP/1.1\r\n%s\r\n", rapid.SampledFrom(vals).Draw(t, "limit"), rapid.SampledFrom(vals).Draw(t, "offset"), hdr))
+				kind = "get"
 			}
 			chunk, wait := 0, time.Duration(0)
 			if kind == "slow-valid" {
@@ -397,4 +402,69 @@ func TestVerifC16_ProcNonLocal(t *testing.T) {
 		}
 		s.Close()
 	}
+}
+
+// C16: the configured key is compared exactly. A key with blanks around it
+// (or made of blanks) cannot be presented at all, because header values are
+// trimmed: every request must be refused, with any spelling of the key, on
+// local and non-local listeners - it must never degrade to "no key" or to the
+// trimmed key.
+func TestVerifC16_ProcPaddedKey(t *testing.T) {
+	rapid.Check(t, func(t *rapid.T) {
+		key := rapid.SampledFrom([]string{" ", "  ", "\t", " sesame", "sesame ", " sesame ", "sesame\t"}).Draw(t, "key")
+		nonLocal := rapid.Bool().Draw(t, "nonLocal")
+		addr := "127.0.0.1:0"
+		if nonLocal {
+			addr = "0.0.0.0:0"
+		}
+		s := StartSession(t, SessionCfg{Args: []string{"--no-mouse", "--listen", addr, "--bind", "start:+execute-silent(echo $FZF_PORT > port2)"}, Input: []byte("alpha\nbeta\n"), Env: []string{"FZF_API_KEY=" + key}, NoListen: true, Width: 60, Height: 10})
+		defer s.Close()
+		port := 0
+		for i := 0; i < 1000 && port == 0; i++ {
+			if b, err := os.ReadFile(filepath.Join(s.Dir, "port2")); err == nil {
+				fmt.Sscanf(strings.TrimSpace(string(b)), "%d", &port)
+			}
+			if _, exited := s.ExitStatus(); exited {
+				break
+			}
+			time.Sleep(5 * time.Millisecond)
+		}
+		if port == 0 {
+			// refusing to start is a clean way out too
+			if code, exited := s.ExitStatus(); exited && code == 2 {
+				vstat.Case("C16/proc-padded-key", fmt.Sprintf("%q|%v|refused", key, nonLocal), true, "refused_to_start")
+				return
+			}
+			infra(t, "no port reported (stderr %q)", s.Stderr())
+		}
+		canary := filepath.Join(s.Dir, "canary")
+		var history []string
+		for _, presented := range []string{"", strings.TrimSpace(key), key, strings.TrimSpace(key) + " ", "x"} {
+			hdr := ""
+			if presented != "" || rapid.Bool().Draw(t, "emptyHeader") {
+				hdr = "x-api-key: " + presented + "\r\n"
+			}
+			body := rapid.SampledFrom([]string{"change-query(intruder)", "execute-silent(touch " + canary + ")"}).Draw(t, "body")
+			for _, req := range []string{"GET / HTTP/1.1\r\n" + hdr + "\r\n", fmt.Sprintf("POST / HTTP/1.1\r\n%sContent-Length: %d\r\n\r\n%s", hdr, len(body), body)} {
+				resp, err := rawRequest(port, []byte(req), 0, 0)
+				history = append(history, fmt.Sprintf("%q -> %q", clip(req, 70), firstLine(resp)))
+				if err != nil {
+					t.Fatalf("cannot connect: %v\n%v", err, history)
+				}
+				if strings.HasPrefix(resp, "HTTP/1.1 200") || strings.Contains(resp, "\"query\"") {
+					t.Fatalf("FZF_API_KEY=%q (listener %s): a request presenting %q was accepted: %q\nhistory: %v", key, addr, presented, clip(resp, 120), history)
+				}
+			}
+		}
+		time.Sleep(100 * time.Millisecond)
+		if _, err := os.Stat(canary); err == nil {
+			t.Fatalf("FZF_API_KEY=%q: a refused POST was executed\nhistory: %v", key, history)
+		}
+		for _, row := range s.Capture() {
+			if strings.Contains(row, "intruder") {
+				t.Fatalf("FZF_API_KEY=%q: a refused POST changed the query\nhistory: %v", key, history)
+			}
+		}
+		vstat.Case("C16/proc-padded-key", fmt.Sprintf("%q|%v", key, nonLocal), true, fmt.Sprintf("nonLocal=%v", nonLocal))
+	})
 }
